@@ -296,7 +296,7 @@ def run(rep, tier, seed):
             key = g["tree"]["v"] if g["tree"]["op"] == "call" else "-"
             if '"/", "0"' in json.dumps([t for t in g["toks"]]) or any(a == "/" and b == "0" for a, b in zip(g["toks"], g["toks"][1:])):
                 key = "special:" + key      # division by zero: inf / NaN operands
-            if any(t in ("65536", "0.0004", "3000") for t in g["toks"]):
+            if any(t in ("65536", "0.0004", "3000", "100000000") for t in g["toks"]):
                 key = "edge:" + key         # 32-bit boundary, values below the printed precision
             by.setdefault(key, []).append(g)
         per = max(60, (limit // 2) // max(1, len(by) - 1))
@@ -368,7 +368,7 @@ def run(rep, tier, seed):
     dcases = []
     pairs = [(c, j % len(ctxs)) for j, c in enumerate(dsel)]
     # values at the 32-bit boundary and below the printed precision: in every context
-    edge = [c for c in scal if any(t in ("65536", "0.0004", "3000") for t in c["txt"].replace("(", " ").replace(")", " ").replace(",", " ").split())]
+    edge = [c for c in scal if any(t in ("65536", "0.0004", "3000", "100000000") for t in c["txt"].replace("(", " ").replace(")", " ").replace(",", " ").split())]
     pairs += [(c, ci) for c in edge for ci in (0, 1, 3, 7) if not (ci != 7 and abs(c["exp"][0]) < 0.001 and c["exp"][0] != 0)]
     for j, (c, ci) in enumerate(pairs):
         xml = ctxs[ci](vlib_escape(c["txt"])).replace("{a}", c["env"]["a"]).replace("{b}", c["env"]["b"])
